@@ -216,7 +216,7 @@ mod k {
         std::mem::forget(m);
     }
 
-    /// VERIF: {"p":"C12","tier":"quick","fns":["dhcp::dhcppkt::Dhcp::serialise","dhcp::dhcppkt::serialise_fixed","dhcp::dhcppkt::parse","dhcp::dhcppkt::parse_options (end marker only)","dhcp::dhcppkt::null_terminated","pktparser::Buffer::*"],"bounds":"every value of every fixed header field, hardware address length 6 (bytes symbolic), sname 2 and file 3 NUL-free symbolic bytes, empty option map","oracle":"parse(serialise(m)) == m field by field","stubs":["std::hash::RandomState::new -> fixed keys (map is created, never filled)"],"covers":1,"unwind":130}
+    /// VERIF: {"p":"C12","tier":"thorough","fns":["dhcp::dhcppkt::Dhcp::serialise","dhcp::dhcppkt::serialise_fixed","dhcp::dhcppkt::parse","dhcp::dhcppkt::parse_options (end marker only)","dhcp::dhcppkt::null_terminated","pktparser::Buffer::*"],"bounds":"every value of every fixed header field, hardware address length 6 (bytes symbolic), sname 2 and file 3 NUL-free symbolic bytes, empty option map","oracle":"parse(serialise(m)) == m field by field","stubs":["std::hash::RandomState::new -> fixed keys (map is created, never filled)"],"covers":1,"unwind":130}
     #[kani::proof]
     #[kani::unwind(130)]
     #[kani::stub(std::hash::RandomState::new, fixed_random_state)]
